@@ -140,23 +140,36 @@ func (pp *pairProbe) probeTCP(c *vk.Ctx, r *rand.Rand, ep Endpoint, k KeySpec) (
 		}
 		return echoed, false
 	}
-	if owned {
-		d := metricSum(after, "shadowsocks_tcp_connections_closed", map[string]string{"access_key": wantID, "status": "OK"}) - metricSum(before, "shadowsocks_tcp_connections_closed", map[string]string{"access_key": wantID, "status": "OK"})
-		db := metricSum(after, "shadowsocks_data_bytes", map[string]string{"proto": "tcp", "dir": "c>p", "access_key": wantID}) - metricSum(before, "shadowsocks_data_bytes", map[string]string{"proto": "tcp", "dir": "c>p", "access_key": wantID})
-		if d != 1 || db <= 0 {
-			wit["expected_id"] = wantID
-			wit["closed_delta"] = d
-			wit["bytes_delta"] = db
-			c.Violation("C09/connection-not-attributed-to-configured-id", wit)
-			return echoed, false
+	// The client sees EOF before the server has finished its accounting (the FIN is sent before
+	// the close report): poll for the expected delta.
+	deadline := time.Now().Add(10 * time.Second)
+	for {
+		if owned {
+			d := metricSum(after, "shadowsocks_tcp_connections_closed", map[string]string{"access_key": wantID, "status": "OK"}) - metricSum(before, "shadowsocks_tcp_connections_closed", map[string]string{"access_key": wantID, "status": "OK"})
+			db := metricSum(after, "shadowsocks_data_bytes", map[string]string{"proto": "tcp", "dir": "c>p", "access_key": wantID}) - metricSum(before, "shadowsocks_data_bytes", map[string]string{"proto": "tcp", "dir": "c>p", "access_key": wantID})
+			if d == 1 && db > 0 {
+				break
+			}
+			if time.Now().After(deadline) {
+				wit["expected_id"] = wantID
+				wit["closed_delta"] = d
+				wit["bytes_delta"] = db
+				c.Violation("C09/connection-not-attributed-to-configured-id", wit)
+				return echoed, false
+			}
+		} else {
+			d := metricSum(after, "shadowsocks_tcp_connections_closed", map[string]string{"status": "ERR_CIPHER"}) - metricSum(before, "shadowsocks_tcp_connections_closed", map[string]string{"status": "ERR_CIPHER"})
+			if d == 1 {
+				break
+			}
+			if time.Now().After(deadline) {
+				wit["err_cipher_delta"] = d
+				c.Violation("C09/foreign-key-not-accounted-as-cipher-failure", wit)
+				return echoed, false
+			}
 		}
-	} else {
-		d := metricSum(after, "shadowsocks_tcp_connections_closed", map[string]string{"status": "ERR_CIPHER"}) - metricSum(before, "shadowsocks_tcp_connections_closed", map[string]string{"status": "ERR_CIPHER"})
-		if d != 1 {
-			wit["err_cipher_delta"] = d
-			c.Violation("C09/foreign-key-not-accounted-as-cipher-failure", wit)
-			return echoed, false
-		}
+		time.Sleep(10 * time.Millisecond)
+		after, _ = pp.srv.Metrics()
 	}
 	return echoed, true
 }
